@@ -3,7 +3,7 @@ CONSTANTS
   Denoms = {"eth"}
   Mods <- Mods0
   AddrMode = "simple"
-  MaxTx = 3
+  MaxTx = 5
   Fuel = 3
   Level = 2
   Genesis <- Genesis0
